@@ -5,8 +5,8 @@ from . import _func, _loss
 def run(tier, seed):
     q = tier == "quick"
     return _func.run(
-        "C05", tier, seed, emitters=[("MC_Loss", _loss.MC % ("C05", 4 if q else 8), "MC_Loss_C05")], extras=lambda s: [],
-        prepare=_loss.prepare(0), sig=_loss.sig,
+        "C05", tier, seed, emitters=[("MC_Loss", _loss.MC % ("C11L", 8), "MC_Loss_C05_spinn"), ("MC_Loss", _loss.MC % ("C05", 4 if q else 8), "MC_Loss_C05")], extras=lambda s: [],
+        prepare=_loss.prepare_filtered(('ic', 'norm'), 0), sig=_loss.sig,
         rule="TLC enumerates loss kind x term (initial condition / normalisation / observations) x outputs 1..3 x batch sizes x sample "
              "counts 2,4,8 x volumes 1,2,4 x scalar/per-component weights x output slices x observed equation parameters entering u "
              "through its output transform x cartesian/paired batches; normalisation networks are non-constant over the samples; "
